@@ -1,3 +1,14 @@
+"""C20 - trajectory look-ups return the first row satisfying the query."""
 LEVEL = 'proof'
-EXPLANATION = 'C20'
+EXPLANATION = ('HitResult.index_at_distance / get_at_distance, helpers find_index_of_point_for_distance, '
+               'find_time_for_distance_in_shot, find_index_for_time_point (strict and nearest variants), '
+               'find_index_of_apex_in_points, find_index_of_point_with_flag, find_velocity_less_than_index under contract for '
+               'trajectories of ANY length (quantified post-conditions; next(genexp, default) modelled as first-match; bisect '
+               'through the contract of Lib/bisect.py::bisect_left, whose body is itself verified with its loop invariant): '
+               'the result is the first row, in order, whose distance / time is at least the requested value, else the '
+               'documented sentinel (-1, NaN) or ArithmeticError; the nearest-time variant minimises |time difference|, takes '
+               'the earlier row on ties and respects the allowed deviation (the empty-trajectory IndexError and the tie repaired '
+               'in 49c63da / e263fef failed these obligations); negative arguments raise ValueError; the apex helper returns '
+               'the highest row (first of equals) of a single-peaked trajectory.')
+NOT_DECIDED = ['rows must be in ascending time for the bisect-based helper (precondition taken from C03)']
 EXTRA = []
